@@ -89,6 +89,8 @@ pub enum QueryOp {
     Balance { who: Target, denom: u32 },
     AllBalances { who: Target },
     Supply { denom: u32 },
+    DenomMeta { denom: u32 },
+    AllDenomMeta,
     Raw { contract: Target, key: KeySpec },
     /// smart query: values of `keys`, optionally a full scan of the callee's storage, optionally
     /// forwarded along a chain of further contracts (nested queries)
@@ -193,6 +195,8 @@ pub enum Op {
     /// mint with literal denominations and amounts given as (mantissa, shift): mantissa << shift
     /// (amounts near 2^127, or more than a hundred denominations)
     MintRaw { to: Target, coins: Vec<(String, u64, u8)> },
+    /// BankKeeper::set_denom_metadata through App::init_modules
+    SetDenomMeta { denom: u32, tag: u8 },
     /// Executor helpers
     HInstantiate { sender: u32, code: u32, slot: u32, node: Node, funds: Vec<CoinSpec>, label: String, admin: Option<Target>, salt: Option<Bytes> },
     HExecute { sender: u32, target: Target, node: Node, funds: Vec<CoinSpec> },
